@@ -336,6 +336,49 @@ def work_point(arg):
                         v('point-sp-depends-on-earlier-query', f'spreading_pressure_at({q * fb:.6g}, {kwb}) after spreading_pressure_at({q * fa:.6g}, {kwa}) on the same isotherm = '
                           f'{got.value if got.ok else got.brief()[:80]} but on a fresh isotherm {want.value if want.ok else want.brief()[:80]}', want.value if want.ok else None,
                           got.value if got.ok else None, {'second': sorted(kwb) or ['plain']})
+            # query, convert the SAME object permanently, query again: equals converting a fresh isotherm first and querying once. Stored representations
+            # include fraction / percent loadings, for which convert_material only relabels the material unit (and still changes what a query with a physical
+            # loading unit returns).
+            stored = [{}, dict(loading_basis='fraction'), dict(loading_basis='percent'), dict(loading_basis='volume_gas', loading_unit='cm3')]
+            convs = [('convert_pressure', dict(unit_to='kPa')), ('convert_pressure', dict(mode_to='relative')), ('convert_loading', dict(unit_to='mol')),
+                     ('convert_loading', dict(basis_to='mass', unit_to='mg')), ('convert_material', dict(unit_to='kg')), ('convert_material', dict(basis_to='volume', unit_to='cm3')),
+                     ('convert_loading', dict(basis_to='fraction'))]
+            qkws = [{}, dict(loading_basis='molar', loading_unit='mmol'), dict(loading_basis='mass', loading_unit='g', material_unit='g'), dict(pressure_unit='bar', pressure_mode='absolute')]
+
+            def mk_stored(st):
+                iso_ = mk()
+                if st:
+                    iso_.convert_loading(basis_to=st['loading_basis'], unit_to=st.get('loading_unit'))
+                    iso_ = pygaps.PointIsotherm(pressure=iso_.pressure(), loading=iso_.loading(), material=pygaps.Material('c11', density=2.0), adsorbate='N2', temperature=77.355,
+                                                **dict(U, loading_basis=st['loading_basis'], loading_unit=st.get('loading_unit')))
+                return iso_
+            for tag, q in (qs[0], qs[len(qs) // 2]):
+                for st in stored:
+                    for cname, ckw in convs:
+                        for qkw in qkws:
+                            fresh = mk_stored(st)
+                            oc = core.call(getattr(fresh, cname), **ckw)
+                            if not oc.ok:
+                                continue
+                            # the query pressure is given in absolute bar whenever the query names its pressure representation, otherwise in the converted isotherm's own
+                            if 'pressure_unit' in qkw:
+                                q2 = q
+                            elif cname == 'convert_pressure':
+                                q2 = float(ru.c_pressure(q, 'absolute', 'bar', fresh.pressure_mode, fresh.pressure_unit, c))
+                            else:
+                                q2 = q
+                            want = core.call(fresh.spreading_pressure_at, q2, **qkw)
+                            iso = mk_stored(st)
+                            core.call(iso.spreading_pressure_at, q, **qkw)
+                            core.call(getattr(iso, cname), **ckw)
+                            got = core.call(iso.spreading_pressure_at, q2, **qkw)
+                            out['ev'] += 1
+                            out['nt'] += 1
+                            if want.ok != got.ok or (want.ok and abs(float(got.value) - float(want.value)) > 1e-11 * abs(float(want.value))):
+                                v('point-sp-stale-after-conversion', f'isotherm stored as {st or "molar mmol/g"}: spreading_pressure_at({q:.6g}, {qkw}), then {cname}({ckw}), then '
+                                  f'spreading_pressure_at({q2:.6g}, {qkw}) = {got.value if got.ok else got.brief()[:80]} but an isotherm converted before its first query gives '
+                                  f'{want.value if want.ok else want.brief()[:80]}', want.value if want.ok else None, got.value if got.ok else None,
+                                  {'conversion': cname, 'stored': st.get('loading_basis', 'molar')})
     return out
 
 
